@@ -11,6 +11,7 @@
 #include <stdarg.h>
 #include <stdlib.h>
 #include <string.h>
+#include <sys/file.h>
 #include <sys/mman.h>
 #include <sys/stat.h>
 #include <ucontext.h>
@@ -153,7 +154,7 @@ struct SimState {
   std::deque<Island> islands;
   World w;
   std::vector<SimFile> files;
-  struct Fd { bool open = false; int file = -1; size_t pos = 0; bool writable = false; bool append = false; bool wfailed = false; int werrno = 0; bool to_stdout = false; };
+  struct Fd { bool open = false; int file = -1; size_t pos = 0; bool writable = false; bool append = false; bool wfailed = false; int werrno = 0; bool to_stdout = false; int lock = 0; /* flock: 0 none, 1 shared, 2 exclusive */ };
   std::vector<Fd> fds;
   std::map<void *, size_t> heap;  // blocks allocated by real code
   std::map<FILE *, OutStream *> ostreams;
@@ -1251,6 +1252,109 @@ extern "C" int __wrap_stat(const char *path, struct stat *st) {
   errno = ENOENT;
   return -1;
 }
+extern "C" void fine_force_yield(void);
+static void flock_release(int k) {
+  if (G.fds[k].lock && G.fds[k].file >= 0) {
+    SimFile &f = G.files[G.fds[k].file];
+    if (G.fds[k].lock == 2 && f.lock_excl == k) f.lock_excl = -1;
+    if (G.fds[k].lock == 1 && f.lock_shared > 0) f.lock_shared--;
+  }
+  G.fds[k].lock = 0;
+}
+// ---- calls a tree may add around its file handling: simulated faithfully rather than left to fail on the real kernel ----
+extern "C" int __real_lstat(const char *, struct stat *);
+extern "C" int __wrap_lstat(const char *path, struct stat *st) {
+  if (!in_lib()) return __real_lstat(path, st);
+  return __wrap_stat(path, st);  // the simulated file system has no symbolic links
+}
+extern "C" int __real_fsync(int);
+static int sim_sync(int fd) {
+  HarnessScope hs_;
+  if (fd == 1 || fd == 2) {
+    errno = EINVAL;  // a pipe
+    return -1;
+  }
+  int k = index_of_fd(fd);
+  if (k < 0 || k >= (int)G.fds.size() || !G.fds[k].open) {
+    errno = EBADF;
+    return -1;
+  }
+  if (G.fds[k].file < 0) {
+    errno = EINVAL;
+    return -1;
+  }
+  return 0;
+}
+extern "C" int __wrap_fsync(int fd) { return in_lib() ? sim_sync(fd) : __real_fsync(fd); }
+extern "C" int __real_fdatasync(int);
+extern "C" int __wrap_fdatasync(int fd) { return in_lib() ? sim_sync(fd) : __real_fdatasync(fd); }
+extern "C" int __real_flock(int, int);
+extern "C" int __wrap_flock(int fd, int op) {
+  if (!in_lib()) return __real_flock(fd, op);
+  HarnessScope hs_;
+  int k = index_of_fd(fd);
+  if (k < 0 || k >= (int)G.fds.size() || !G.fds[k].open || G.fds[k].file < 0) {
+    errno = EBADF;
+    return -1;
+  }
+  // locks belong to the open file description: two descriptors of one file conflict, also within one process
+  for (int spin = 0;; spin++) {
+    SimFile &f = G.files[G.fds[k].file];
+    int want = (op & LOCK_UN) ? 0 : (op & LOCK_EX) ? 2 : 1;
+    flock_release(k);
+    if (want == 0) return 0;
+    bool free_ = want == 2 ? (f.lock_excl < 0 && f.lock_shared == 0) : f.lock_excl < 0;
+    if (free_) {
+      if (want == 2) f.lock_excl = k; else f.lock_shared++;
+      G.fds[k].lock = want;
+      return 0;
+    }
+    if ((op & LOCK_NB) || spin > 2000) {
+      errno = (op & LOCK_NB) ? EWOULDBLOCK : EDEADLK;
+      return -1;
+    }
+    fine_force_yield();  // another caller holds it: let it run
+  }
+}
+extern "C" int __real_rename(const char *, const char *);
+extern "C" int __wrap_rename(const char *from, const char *to) {
+  if (!in_lib()) return __real_rename(from, to);
+  HarnessScope hs_;
+  int fi = -1, ti = -1;
+  for (size_t i = 0; i < G.files.size(); i++) {
+    if (G.files[i].path == from) fi = (int)i;
+    if (G.files[i].path == to) ti = (int)i;
+  }
+  if (fi < 0 || !*to || !dir_exists(dir_of(to))) {
+    errno = ENOENT;
+    return -1;
+  }
+  if (ti >= 0 && ti != fi) {
+    if (G.files[ti].kind == 2) {
+      errno = EISDIR;
+      return -1;
+    }
+    G.files[ti].path = std::string(1, '\0') + "replaced";  // lives on only through descriptors that are open on it (no path names it)
+  }
+  G.files[fi].path = to;
+  return 0;
+}
+extern "C" int __real_unlink(const char *);
+extern "C" int __wrap_unlink(const char *path) {
+  if (!in_lib()) return __real_unlink(path);
+  HarnessScope hs_;
+  for (SimFile &f : G.files)
+    if (f.path == path && *path) {
+      if (f.kind == 2) {
+        errno = EISDIR;
+        return -1;
+      }
+      f.path = std::string(1, '\0') + "unlinked";
+      return 0;
+    }
+  errno = ENOENT;
+  return -1;
+}
 extern "C" int __wrap_close(int fd) {
   if (!in_lib()) return __real_close(fd);
   HarnessScope hs_;
@@ -1261,6 +1365,7 @@ extern "C" int __wrap_close(int fd) {
     errno = EBADF;
     return -1;
   }
+  flock_release(k);
   G.fds[k].open = false;
   return 0;
 }
